@@ -1,6 +1,7 @@
 package mc
 
 import (
+	"strconv"
 	"encoding/json"
 	"fmt"
 	"os"
@@ -281,7 +282,18 @@ type explorer struct {
 	samples  [][]string
 	capped   atomic.Bool
 	termsCap int
+	hang     *Violation
 }
+
+// hangAfter is the watchdog delay of one transition.
+var hangAfter = func() time.Duration {
+	if v := os.Getenv("VERIF_HANG_S"); v != "" {
+		if n, err := strconv.Atoi(v); err == nil && n > 0 {
+			return time.Duration(n) * time.Second
+		}
+	}
+	return 120 * time.Second
+}()
 
 type node struct {
 	ctx  sdk.Context
@@ -325,7 +337,29 @@ func (wk *worker) step(n *node, op Op) (*node, *Transition) {
 	e := wk.e
 	cctx, _ := n.ctx.CacheContext()
 	cctx = cctx.WithEventManager(sdk.NewEventManager())
-	pctx, res := op.Apply(wk.w, cctx)
+	// watchdog: a handler or block hook that has not returned after hangAfter (five orders of magnitude
+	// above the measured cost of a transition) is reported as a hang; the run cannot continue (the
+	// goroutine is stuck inside the application), so the explorer stops.
+	var pctx sdk.Context
+	var res Result
+	done := make(chan struct{})
+	go func() {
+		defer close(done)
+		pctx, res = op.Apply(wk.w, cctx)
+	}()
+	select {
+	case <-done:
+	case <-time.After(hangAfter):
+		h := append(append([]Op{}, e.sc.Preamble...), n.hist.push(op).list()...)
+		e.mu.Lock()
+		if e.hang == nil {
+			e.hang = &Violation{Prop: "C07", Sig: "hang/" + op.Kind, Scen: e.sc.Name, Hist: h,
+				Detail: fmt.Sprintf("%v has not returned after %s (a transition normally takes well under a millisecond)", op, hangAfter)}
+		}
+		e.mu.Unlock()
+		e.stop.Store(true)
+		return nil, nil
+	}
 	post, err := wk.w.Snapshot(pctx)
 	if err != nil {
 		panic(fmt.Sprintf("snapshot failed after %v: %v", op, err))
@@ -381,6 +415,9 @@ func (wk *worker) dfs(n *node) {
 	ops := e.sc.Menu(n.st, n.bud)
 	expanded := false
 	for _, op := range ops {
+		if e.stop.Load() {
+			return
+		}
 		if op.Budget != "" && n.bud[op.Budget] <= 0 {
 			continue
 		}
@@ -484,6 +521,9 @@ func Run(sc *Scenario, opts RunOpts) (*RunResult, error) {
 			ops := sc.Menu(n.st, n.bud)
 			expanded := false
 			for _, op := range ops {
+				if e.stop.Load() {
+					break
+				}
 				if op.Budget != "" && n.bud[op.Budget] <= 0 {
 					continue
 				}
@@ -567,6 +607,11 @@ func Run(sc *Scenario, opts RunOpts) (*RunResult, error) {
 	wg.Wait()
 	if err, ok := firstErr.Load().(error); ok && err != nil {
 		return nil, err
+	}
+	if e.hang != nil {
+		e.capped.Store(true)
+		e.viol = append(e.viol, *e.hang)
+		e.violCnt[e.hang.Prop+"|"+e.hang.Sig]++
 	}
 
 	rr := &RunResult{Scenario: sc.Name, States: e.vis.n.Load(), Exhaustive: !e.capped.Load(), Violations: e.viol,
